@@ -142,7 +142,8 @@ def parse_assumptions(out, printed):
             cur = []
             blocks.append(cur)
         elif cur is not None:
-            m = re.match(r'^([A-Za-z_][A-Za-z0-9_\.\']*)\s*:', line)
+            # coqc prints either "name : type" or "name" followed by an indented "  : type" line
+            m = re.match(r"^([A-Za-z_][A-Za-z0-9_\.']*)\s*(:.*)?$", line)
             if m:
                 cur.append(m.group(1))
             elif line and not line.startswith(' '):
@@ -401,3 +402,61 @@ def _standard_prove(res, prop_file, gen_targets=None):
 
 def rng_for(seed, *tags):
     return random.Random('%s|%s' % (seed, '|'.join(map(str, tags))))
+
+
+# ----------------------------------------------------------------------------- interval goals (transcendental formulas)
+def rlit(x):
+    """Coq R term (exact) for a float: integer or integer / 2^k written with integer literals"""
+    m, e = dy_of_float(x)
+    if e >= 0:
+        v = m * (1 << e)
+        return '(%d)' % v if v < 0 else '%d' % v
+    num = '(%d)' % m if m < 0 else '%d' % m
+    return '(%s / %d)' % (num, 1 << (-e))
+
+
+def rlit_frac(fr):
+    fr = Fraction(fr)
+    n, d = fr.numerator, fr.denominator
+    num = '(%d)' % n if n < 0 else '%d' % n
+    return num if d == 1 else '(%s / %d)' % (num, d)
+
+
+def run_interval_goals(casedir, header, goals, shard=60, prefix='ival', tactic='interval with (i_prec 120)', timeout=600, max_rounds=6):
+    """goals: list of Coq propositions (one line each).  Each becomes `Goal <prop>. Proof. <tactic>. Qed.` (kernel-checked).
+    Returns (failing_indices, errors).  A file that fails is recompiled without the failing goal (located by line number)."""
+    shards = [(s, list(range(s, min(s + shard, len(goals))))) for s in range(0, len(goals), shard)]
+    failing, errors = [], []
+    pending = shards
+    for rnd in range(max_rounds):
+        if not pending:
+            break
+        files = []
+        for base, idxs in pending:
+            lines = [header]
+            for i in idxs:
+                lines.append('Goal %s. Proof. %s. Qed.' % (goals[i].replace('\n', ' '), tactic))
+            files.append(('%s_%d_%d.v' % (prefix, base, rnd), '\n'.join(lines) + '\n'))
+        res = casedir.run_files(files, timeout=timeout)
+        nxt = []
+        hdr_lines = header.count('\n') + 1
+        for (base, idxs), (name, _) in zip(pending, files):
+            rc, out = res[name]
+            if rc == 0:
+                continue
+            m = re.search(r'File "[^"]+", line (\d+)', out)
+            if not m:
+                errors.append((name, out[-2000:]))
+                continue
+            k = int(m.group(1)) - hdr_lines - 1
+            if 0 <= k < len(idxs):
+                failing.append(idxs[k])
+                rest = idxs[:k] + idxs[k + 1:]
+                if rest:
+                    nxt.append((base, rest))
+            else:
+                errors.append((name, out[-2000:]))
+        pending = nxt
+    if pending:
+        errors.append(('interval', 'more than %d failing goals in a shard; stopped' % max_rounds))
+    return sorted(failing), errors
